@@ -1,6 +1,7 @@
 import RisorModel.C03.Model
 import RisorModel.C03.Lemmas
 import RisorModel.Generated.C03
+import RisorModel.Generated.C03Front
 /-!
 C03 ties: facts regenerated from /repo on this run (extract/c03.go) against the reviewed
 lists.  The comparisons are one-sided on purpose: a NEW panic site, a NEW unchecked type
@@ -204,5 +205,137 @@ theorem emit_never_panics (s : String × String × Nat) (hs : s ∈ emitSites) :
   simp only [beq_iff_eq] at this
   refine ⟨s.2.2, this, ?_⟩
   simp [makeInstruction, Out.isPanic]
+
+/-! ### Front end: index / slice bounds, nesting depth (extract/c03front.go) -/
+
+open Risor.Generated.C03Front in
+/-- Every index `x[i]` and slice expression `x[a:b]` on a slice, array or string (maps are not
+    listed) of lexer/lexer.go and parser/*.go, with what the extractor could establish
+    SYNTACTICALLY about its upper bound (`bound-check`: dominated by a test against `len(x)` that
+    names the index; `loop-len`; `const-fixed`; `slice-len-derived`; `UNGUARDED`: nothing
+    established — each of those is read against the code below).  A Go index out of range is
+    a run-time panic, and nothing on the parse path recovers (`frontRecovers`): each entry here
+    is a place where `parser.Parse` could let a Go panic out.
+
+    The classified entries, for the record: `GetLineText|l.characters[end]` is right of
+    `end < len(l.characters) &&`; `peekChar` returns NUL first when
+    `l.nextPosition >= len(l.characters)`; `readChar` indexes inside
+    `if l.position < len(l.characters)`; `parseInt|lit[1:]` is inside `… && len(lit) > 1`;
+    `parseString|statements[0]` is in the else-branch of `len(statements) == 0`.
+    (The extractor does not look at LOWER bounds: `end` in `GetLineText` is negative only for an
+    EOF token at offset 0 of a non-empty input, `C03_counterexample_lineText`, outside
+    `lineTextGuard`; the other classified indices are lexer positions ≥ 0 and constants.) -/
+def reviewedFrontIndexSites : List String := [
+  "lexer.Lexer.GetLineText|l.characters[end]|bound-check",
+  -- REVIEW: `start` is `tokenStart.Char` (minus 1 for EOF), the panic guard above admits
+  -- `Char ≤ len+1`, the loop tests only `start > 0`: for a token inside `lineTextGuard`
+  -- (Props: non-EOF `Char ≤ len`, EOF `1 ≤ Char ≤ len+1`) `0 < start ≤ len`, so `start-1` is
+  -- in range — `C03_partial_lineText`.  OUTSIDE the guard it is NOT: a non-EOF token with
+  -- `Char = len+1` indexes `l.characters[len]`.  The lexer produces no such token (its token
+  -- starts are positions it has read, EOF at `len`); the harness compares every token.
+  "lexer.Lexer.GetLineText|l.characters[start-1]|UNGUARDED",
+  -- REVIEW: same function, same theorem: inside `lineTextGuard` the two scans return
+  -- `0 ≤ s ≤ e ≤ len` (`C03_partial_lineText`: "a slice `[s, e)` inside the input").
+  "lexer.Lexer.GetLineText|l.characters[start:end]|UNGUARDED",
+  "lexer.Lexer.peekChar|l.characters[l.nextPosition]|bound-check",
+  -- REVIEW: `position = l.position+1` at the opening backtick; the loop calls `readChar` at
+  -- least once before `break` (so `l.position ≥ position`: `readChar` is the only writer of
+  -- `position`/`nextPosition` and moves by one) and only after `peekChar() != 0`, i.e.
+  -- `l.nextPosition < len(l.characters)`: at `break` `l.position < len`.  In range.
+  "lexer.Lexer.readBacktick|l.characters[position:l.position]|UNGUARDED",
+  "lexer.Lexer.readChar|l.characters[l.position]|bound-check",
+  -- REVIEW: `allChars` is the 16-byte constant "0123456789abcdef"; `base` is a parameter of
+  -- the unexported `readEscapeSequence`, whose seven call sites (all in `readString`) pass
+  -- the literals 16 or 8.  In range.
+  "lexer.Lexer.readEscapeSequence|allChars[:base]|UNGUARDED",
+  -- REVIEW: `idents` starts as the one-element literal `[]*ast.Ident{ast.NewIdent(p.curToken)}`
+  -- and is only appended to (the test before it is `len(idents) > 1 → return`).  In range.
+  "parser.Parser.parseDeclaration|idents[0]|UNGUARDED",
+  "parser.Parser.parseInt|lit[1:]|bound-check",
+  -- REVIEW: inside `if strings.HasPrefix(lit, "0x")`, hence `len(lit) ≥ 2`.  In range.
+  "parser.Parser.parseInt|lit[2:]|UNGUARDED",
+  "parser.Parser.parseString|statements[0]|bound-check",
+  -- REVIEW: as parseDeclaration: one-element literal, only appended to.  In range.
+  "parser.Parser.parseVar|idents[0]|UNGUARDED"
+]
+
+/-- the UNGUARDED entries of the table above, on their own: a NEW index or slice expression
+    that no test against `len` dominates is named by the lemma that fails -/
+def reviewedUnguardedFrontSites : List String := [
+  "lexer.Lexer.GetLineText|l.characters[start-1]|UNGUARDED",
+  "lexer.Lexer.GetLineText|l.characters[start:end]|UNGUARDED",
+  "lexer.Lexer.readBacktick|l.characters[position:l.position]|UNGUARDED",
+  "lexer.Lexer.readEscapeSequence|allChars[:base]|UNGUARDED",
+  "parser.Parser.parseDeclaration|idents[0]|UNGUARDED",
+  "parser.Parser.parseInt|lit[2:]|UNGUARDED",
+  "parser.Parser.parseVar|idents[0]|UNGUARDED"
+]
+
+set_option maxRecDepth 8000 in
+/-- the index and slice expressions of lexer/lexer.go and parser/*.go in the code of THIS run,
+    with their classes, are exactly the reviewed ones (two-sided: a new site, a site whose
+    dominating test was removed — its class changes — and a removed site all break it) -/
+theorem front_index_sites_reviewed :
+    Risor.Generated.C03Front.frontIndexSites = reviewedFrontIndexSites := by decide
+
+set_option maxRecDepth 8000 in
+/-- the sites with no dominating test are exactly the seven read by hand above (the extractor
+    emits them as a list of their own; `front_unguarded_is_filter` ties that list to the table) -/
+theorem front_unguarded_sites_reviewed :
+    Risor.Generated.C03Front.frontUnguardedSites = reviewedUnguardedFrontSites := by decide
+
+set_option maxRecDepth 8000 in
+/-- the short list is the UNGUARDED part of the full table, nothing dropped: every entry of
+    `frontIndexSites` is in `frontUnguardedSites` or in the reviewed table with another class -/
+theorem front_unguarded_is_filter :
+    Risor.Generated.C03Front.frontIndexSites.all (fun s =>
+      Risor.Generated.C03Front.frontUnguardedSites.contains s ||
+      (reviewedFrontIndexSites.contains s && !reviewedUnguardedFrontSites.contains s)) = true := by
+  decide
+
+/-- The real recursive-descent parser has NO nesting-depth guard: no constant, variable, field,
+    parameter, local or function of parser/*.go has "depth" in its name (no `depth`, no
+    `maxDepth`).  The nesting-depth theorem of the Pratt model (C03/FrontProps.lean: the depth
+    of the tree is at most the number of tokens) is therefore the ONLY bound there is: the
+    native recursion of `parseExpression` grows with the input, and a source of about a million
+    nested brackets ends the process with a fatal stack overflow — finding
+    `C03-deep-nesting-stack-overflow` (known, listed).  If a guard is added to the parser this
+    lemma breaks: its constant must then be tied here and the finding re-judged. -/
+theorem parser_has_no_depth_guard : Risor.Generated.C03Front.parserDepthGuards = [] := by decide
+
+set_option maxRecDepth 8000 in
+/-- the recursion points of the parser: every function of parser/parser.go that calls
+    `parseExpression` directly.  Each is reached from `parseExpression` through the prefix /
+    infix / postfix tables or from `parseStatement`, so each adds native frames per level of
+    nesting of its construct (brackets, calls, `[`, `{`, prefix operators, `if`, `switch`,
+    `func` bodies through `parseStatement`, …) with nothing counting them
+    (`parser_has_no_depth_guard`). -/
+theorem parser_recursion_points_reviewed :
+    Risor.Generated.C03Front.parserRecursiveEntry = [
+      "parser.Parser.parseAssign",
+      "parser.Parser.parseAssignmentValue",
+      "parser.Parser.parseDefer",
+      "parser.Parser.parseExprList",
+      "parser.Parser.parseFor",
+      "parser.Parser.parseFuncParams",
+      "parser.Parser.parseGetAttr",
+      "parser.Parser.parseGo",
+      "parser.Parser.parseGroupedExpr",
+      "parser.Parser.parseIf",
+      "parser.Parser.parseIn",
+      "parser.Parser.parseIndex",
+      "parser.Parser.parseInfixExpr",
+      "parser.Parser.parseKeyValue",
+      "parser.Parser.parseMapOrSet",
+      "parser.Parser.parseNotIn",
+      "parser.Parser.parsePipe",
+      "parser.Parser.parsePrefixExpr",
+      "parser.Parser.parseRange",
+      "parser.Parser.parseReceive",
+      "parser.Parser.parseReturn",
+      "parser.Parser.parseSend",
+      "parser.Parser.parseSwitch",
+      "parser.Parser.parseTernary"
+    ] := by decide
 
 end Risor.C03
